@@ -152,7 +152,11 @@ impl Gen {
                 _ => {}
             }
         }
-        match self.rng.gen_range(0..6) {
+        match self.rng.gen_range(0..7) {
+            6 => {
+                c.push(json!({"m":"or_default"}));
+                c.push(json!({"m": if self.rng.gen_bool(0.5) { "read" } else { "write" },"w": self.val()}));
+            }
             0 => {
                 c.push(json!({"m":"or_insert","v": self.val()}));
                 c.push(json!({"m":"write","w": self.val()}));
@@ -255,7 +259,7 @@ impl Gen {
                 c.push(json!({"m":"match"}));
                 for _ in 0..self.rng.gen_range(0..3) {
                     match self.rng.gen_range(0..6) {
-                        0 => c.push(json!({"m":"o_key"})),
+                        0 => c.push(json!({"m": if self.rng.gen_bool(0.5) { "o_key" } else { "o_key_mut" }})),
                         1 => c.push(json!({"m":"o_get"})),
                         2 => c.push(json!({"m":"o_get_mut","w": self.val()})),
                         3 => c.push(json!({"m":"o_insert","v": self.val()})),
